@@ -21,7 +21,8 @@ def run(c):
     n = 120 if q else 900
     base = dict(Vals={1, 2}, MaxReads=1, MaxCkpt=2, MaxReopen=1, MaxRetain=1)
     cfgs = [(dkvlib.consts(MaxOps=8, MaxLen=44, **base), 0), (dkvlib.consts(MaxOps=8, MaxLen=44, MemCap=24, **base), 1),
-            (dkvlib.consts(MaxOps=9, MaxLen=48, MemCap=70, L0Trigger=3, **base), 2)]
+            (dkvlib.consts(MaxOps=9, MaxLen=48, MemCap=70, L0Trigger=3, **base), 2),
+            (dkvlib.consts(MaxOps=9, MaxLen=48, MemCap=200, WalCap=40, **base), 0)]
     if not q:
         big = dict(Vals={1, 2}, MaxReads=1, MaxCkpt=3, MaxReopen=2, MaxRetain=2)
         cfgs += [(dkvlib.consts(MaxOps=12, MaxLen=70, **big), 0), (dkvlib.consts(MaxOps=12, MaxLen=70, MemCap=24, L0Trigger=1, **big), 1)]
